@@ -12,6 +12,9 @@ type Val struct {
 	T     Type
 	Pts   RootSet
 	NoRef bool // provably carries no reference (scalar, nil, reference-free value)
+	// Trusted (library interface types only, see trust.go): the dynamic type is a
+	// library implementation (value of a trusted constructor / library variable)
+	Trusted bool
 }
 
 func scalar(t Type) Val { return Val{T: t, Pts: RootSet{}, NoRef: true} }
@@ -26,6 +29,8 @@ type Var struct {
 	// references the analysis had lost.  A ZeroDecl variable with an empty points-to set
 	// that never GotLost provably carries no reference.
 	ZeroDecl, GotLost bool
+	// IfaceUntrusted: some value assigned to the variable was not Trusted (trust.go)
+	IfaceUntrusted bool
 }
 
 // FT translates one function body.
@@ -46,7 +51,9 @@ type FT struct {
 	resT     []Type
 	fd       *ast.FuncDecl
 	deferred []deferredCall
-	clauseV  map[ast.Node]*Var // type-switch clause variables
+	clauseV  map[ast.Node]*Var                     // type-switch clause variables
+	nres     int                                   // number of results of the repo call just evaluated (see evalArgs)
+	synth    map[ast.Expr]map[string]*ast.CallExpr // implicit method calls of fmt operands (trust.go)
 }
 
 // deferredCall: a defer statement seen so far; its effects are emitted at
